@@ -90,7 +90,7 @@ def layout_form(prefix, tsuf, rsuf, style, target_first, ref_kind, with_cells=Tr
     if ref_kind == "question":
         cells = {"label": f"lab {R} x", "hint": f"{R} hint", "relevant": f"{R} > 1", "constraint": f". > {R} and {R} != 5", "required": f"{R} = 2",
                  "read_only": f"{R} = 3", "constraint_message": f"msg {R}", "default": f"{R} + 1", "choice_filter": f"name != {R} and cf = {R}",
-                 "parameters": f"randomize=true seed={R}", "instance::xattr": f"{R}", "body::kb:flag": f"{R}", "bind::odk:x": f"{R} * 2"}
+                 "parameters": "randomize=true seed=" + {"plain": f"{R}", "adv": f"{R}*2", "case": f"{R}+{R}"}[style], "instance::xattr": f"{R}", "body::kb:flag": f"{R}", "bind::odk:x": f"{R} * 2"}
         rq = Row("q", f"select_one {lst}", "refq", cells)
         # an external select (external_choices sheet) next to it: its filter lives in input/@query and needs current() like any predicate
         extras = [Row("q", "select_one_external ext", "refx", {"label": "x", "choice_filter": f"state={R} and cf = {R}"})]
@@ -476,10 +476,13 @@ def check_form(ctx, form, klass, sig):
                     ctx.viol("choice_filter-external:no-predicate", f"{e.path}: query {qy!r} carries no predicate for filter {cf!r}", J.wit(cell="choice_filter"))
             prm = refmodel.parse_params(r.cells.get("parameters"))
             if ns and "seed" in prm and "${" in (r.cells.get("parameters") or ""):
-                sm = re.search(r"seed=(\$\{[^}]+\})", r.cells["parameters"])
-                mm = re.search(r",\s*(\S+)\)$", ns)
+                sm = re.search(r"seed=(\S+)", r.cells["parameters"])  # a lone reference or an expression that starts with one
+                mm = re.search(r"^randomize\(.*?\]?\s*,(.+)\)$", ns, re.S)
                 if sm and mm:
-                    J.judge("parameters-seed", e, sm.group(1), " " + mm.group(1) + " ")
+                    got = " " + mm.group(1).strip() + (" " if sm.group(1).endswith("}") else "")  # pyxform strips the padded path at the ends only
+                    J.judge("parameters-seed", e, sm.group(1), got)
+                elif sm:
+                    ctx.viol("parameters-seed:not-in-itemset", f"{e.path}: seed {sm.group(1)!r} not found in itemset nodeset {ns!r}", J.wit(cell="parameters-seed"))
     # choice labels with references: always absolute
     for ln, rows in form.choices.items():
         for idx, c in enumerate(rows):
@@ -516,6 +519,28 @@ def _judge_segments(J, kind, e, source, segs):
 
 
 # ----------------------------------------------------------------------------- negative forms
+def same_text_forms():
+    """Identical text with a ${ref} in itext-rendered cells of several rows at different depths of one repeat: each row needs its own path."""
+    for translated in (False, True):
+        for outer in ("repeat", "group"):
+            msg = "must stay below ${limit} please"
+            lab = "relative to ${limit}"
+            def q(name):
+                cells = {"constraint": ". < ${limit}", "constraint_message": msg, "required": "yes", "required_message": msg}
+                if translated:
+                    cells.update({"label::en": lab, "label::fr": lab, "hint::en": lab})
+                else:
+                    cells.update({"label": lab, "hint": lab})
+                return Row("q", "integer", name, cells)
+            inner2 = Row("group", "begin group", "sg2", {"label": "g2"}, [q("sc")])
+            inner1 = Row("group", "begin group", "sg1", {"label": "g1"}, [q("sb"), inner2])
+            member = Row(outer, f"begin {outer}", "member", {"label": "m"}, [Row("q", "integer", "limit", {"label": "limit"}), q("sa"), inner1])
+            f = Form()
+            f.survey = [member, q("stop")]
+            f.settings = {"form_id": "st"}
+            yield f, f"same-text|{outer}|{'translated' if translated else 'plain'}"
+
+
 def indexed_repeat_forms():
     """indexed-repeat() with one, two and three (repeat, index) pairs, written at every depth of a 3-level repeat nest and outside it."""
     for depth in (1, 2, 3):
@@ -603,6 +628,10 @@ def run_shard(ctx):
                             p = check_form(ctx, form, "layout", sig)
                             if n <= 2 and p is not None:
                                 ctx.sample({"layout": sig, "form_md": common.sheets_to_md(form.to_sheets())[:1200], "observed": "all substituted paths resolve to the target"})
+    for k, (form, sig) in enumerate(same_text_forms()):
+        if ctx.mine(k):
+            ctx.ctr("same_text_forms")
+            check_form(ctx, form, "same-text", sig)
     for k, (form, sig) in enumerate(indexed_repeat_forms()):
         if ctx.mine(k):
             ctx.ctr("indexed_repeat_forms")
